@@ -527,15 +527,28 @@ func (s *Serializer) fenced(b *Block) []sline {
 	if b.Info != "" {
 		open += []string{"", " "}[s.C.Dev(2)] + b.Info
 	}
-	out := []sline{{text: open, role: roleSyntax}}
+	// The opening fence may be indented 1-3 columns; that many columns of
+	// indentation are then removed from every content line, so the content lines
+	// are written with the same indentation in front. The closing fence has its
+	// own indentation of 0-3 columns.
+	ind := ""
+	hasTab := false
+	for _, l := range b.Lines {
+		hasTab = hasTab || strings.Contains(l, "\t")
+	}
+	if !hasTab {
+		ind = strings.Repeat(" ", []int{0, 1, 3}[s.C.Dev(3)])
+	}
+	closeInd := strings.Repeat(" ", []int{0, 3}[s.C.Dev(2)])
+	out := []sline{{text: ind + open, role: roleSyntax}}
 	for _, l := range b.Lines {
 		if l == "" {
 			out = append(out, sline{role: roleBlank})
 		} else {
-			out = append(out, sline{text: l, role: roleVerbatim})
+			out = append(out, sline{text: ind + l, role: roleVerbatim})
 		}
 	}
-	return append(out, sline{text: strings.Repeat(string(ch), closeN), role: roleSyntax})
+	return append(out, sline{text: closeInd + strings.Repeat(string(ch), closeN), role: roleSyntax})
 }
 
 func (s *Serializer) refdef(b *Block) []sline {
